@@ -450,11 +450,23 @@ pub fn run(tier: Tier) -> i32 {
             let cwd = root.join(format!("cwd{}", j));
             std::fs::create_dir_all(&cwd).unwrap();
             crate::binx::write_toml(&cwd.join("cfg.toml"), proj.to_str().unwrap(), o, v, q);
+            // "however many times the analysis is repeated": every third job is the SECOND run of the same command in its
+            // working directory, every other third follows a run with all 30 patterns in the same working directory
+            match j % 3 {
+                0 => {
+                    let _ = crate::binx::run_bin(&bin, &cwd, &["--toml", "cfg.toml"]);
+                }
+                1 => {
+                    crate::binx::write_toml(&cwd.join("all.toml"), proj.to_str().unwrap(), &all.0, &all.1, &all.2);
+                    let _ = crate::binx::run_bin(&bin, &cwd, &["--toml", "all.toml"]);
+                }
+                _ => {}
+            }
             let out = crate::binx::run_bin(&bin, &cwd, &["--toml", "cfg.toml"]);
             let rep = std::fs::read_to_string(cwd.join("solstat_report.md")).ok();
             (out.code, rep)
         });
-        for ((name, cat, sel), (code, rep)) in jobs.iter().zip(res) {
+        for (jidx, ((name, cat, sel), (code, rep))) in jobs.iter().zip(res).enumerate() {
             dir_states += 1;
             let d = match detectors.iter().position(|d| d.name == name.as_str()) {
                 Some(d) => d,
@@ -492,7 +504,18 @@ pub fn run(tier: Tier) -> i32 {
             if !crate::binx::completed(code) || got.as_ref() != Some(&want) {
                 run.violation(Violation {
                     site: format!("binary:{}:entries-depend-on-co-selected-patterns", name),
-                    input: format!("configuration optimizations={:?} vulnerabilities={:?} qa={:?} on {}", sel.0, sel.1, sel.2, fsx::describe(&tree)),
+                    input: format!(
+                        "configuration optimizations={:?} vulnerabilities={:?} qa={:?} on {}; {}",
+                        sel.0,
+                        sel.1,
+                        sel.2,
+                        fsx::describe(&tree),
+                        match jidx % 3 {
+                            0 => "second run of this command in its working directory",
+                            1 => "run after a run with all 30 patterns in the same working directory",
+                            _ => "single run in a fresh working directory",
+                        }
+                    ),
                     expected: format!("the entries of {} are those of each file analysed alone: {:?}", name, want),
                     observed: format!("exit {:?}; entries {:?}", code, got),
                     size: sel.0.len() + sel.1.len() + sel.2.len(),
